@@ -967,6 +967,10 @@ class Scene(DaeObject):
             for nodenode, ex in tried_loading:
                 raise DaeBrokenRefError(ex.msg)
 
+        # nodes that had to wait for their instances go back to document order
+        position = dict((child, i) for i, child in enumerate(node))
+        nodes.sort(key=lambda n: position[n.xmlnode])
+
         return Scene(id, nodes, xmlnode=node, collada=collada)
 
     def save(self):
